@@ -341,6 +341,7 @@ static void st_cmd(void)
 		ssize_t n = mpt_stream_push(&tx, dlen, dat);
 		free(dat);
 		if (n > 0) st_inmsg = 1;
+		if (getenv("ST_DEBUG")) fprintf(stderr, "push tx: done=%zu scratch=%zu len=%zu off=%zu max=%zu\n", tx._wd._state.done, tx._wd._state.scratch, tx._wd.data.len, tx._wd.data.off, tx._wd.data.max);
 		printf("R %s n=%s | C - | I -\n", n == (ssize_t) dlen ? "ok" : "short", retname(n, buf, sizeof(buf)));
 	}
 	else if (!strcmp(op, "term") && drv_nw == 2) {
@@ -360,6 +361,14 @@ static void st_cmd(void)
 		printf("R %s | C - | I -\n", tx._wd._state.done ? "failed" : "ok");
 		(void) r;
 	}
+	else if (!strcmp(op, "flush1") && drv_nw == 2) {
+		/* one flush call, nobody reads the socket: what fits leaves the queue (it may wrap around afterwards), a full
+		 * socket refuses; the bytes reach the transport with the next 'st flush' */
+		mpt_stream_flush(&tx);
+		if (st_inmsg) st_torn = 1;
+		puts("R ok | C - | I -");
+		if (getenv("ST_DEBUG")) fprintf(stderr, "flush1 tx: done=%zu scratch=%zu len=%zu off=%zu max=%zu\n", tx._wd._state.done, tx._wd._state.scratch, tx._wd.data.len, tx._wd.data.off, tx._wd.data.max);
+	}
 	else if (!strcmp(op, "abort") && drv_nw == 2) {
 		/* give up the message in progress (only asked for while nothing of it has left the queue) */
 		if (!st_inmsg || st_torn) { puts("R skipped | C - | I -"); return; }
@@ -371,7 +380,6 @@ static void st_cmd(void)
 		/* the transport: move the next bytes from the sender's socket to the receiver's socket */
 		if (drv_parse_nat(drv_w[2], &a) || a > (1u << 20)) { puts("bad-op"); return; }
 		size_t off = 0, n;
-		st_drain();
 		n = st_tblen - st_tbpos;
 		if (n > a) n = a;
 		if (st_h2 < 0) n = 0;   /* the receiver's peer is closed */
@@ -379,6 +387,12 @@ static void st_cmd(void)
 			ssize_t w = write(st_h2, st_tb + st_tbpos + off, n - off);
 			if (w <= 0) break;
 			off += w;
+		}
+		if (getenv("ST_DEBUG")) {
+			size_t i, from = st_tblen > 12 ? st_tblen - 12 : 0;
+			fprintf(stderr, "transport len=%zu tail=", st_tblen);
+			for (i = from; i < st_tblen; i++) fprintf(stderr, "%02x", st_tb[i]);
+			fprintf(stderr, " tx: done=%zu scratch=%zu len=%zu off=%zu max=%zu\n", tx._wd._state.done, tx._wd._state.scratch, tx._wd.data.len, tx._wd.data.off, tx._wd.data.max);
 		}
 		st_tbpos += off;
 		st_moved += off;
